@@ -18,6 +18,10 @@ import (
 	"time"
 
 	"k8s.io/apimachinery/pkg/apis/meta/v1/unstructured"
+	"k8s.io/apimachinery/pkg/labels"
+	"k8s.io/apimachinery/pkg/runtime/schema"
+	"k8s.io/client-go/dynamic/dynamiclister"
+	"k8s.io/client-go/tools/cache"
 
 	"metacontroller/pkg/zzverif/env"
 	stub "metacontroller/pkg/zzverif/informerstub"
@@ -179,4 +183,80 @@ func VerifC18_ResyncTimer() {
 	riB.Close()
 	stub.Settle(1)
 	verifAssert(st.Stopped(), "resync/informer-not-stopped-after-last-close")
+}
+
+// verifHookedLister runs a callback right after a List() took its snapshot:
+// the harness plays "the informer dispatches an event at this very moment".
+type verifHookedLister struct {
+	dynamiclister.Lister
+	after *func()
+}
+
+func (l *verifHookedLister) List(selector labels.Selector) ([]*unstructured.Unstructured, error) {
+	res, err := l.Lister.List(selector)
+	if f := *l.after; f != nil {
+		*l.after = nil
+		f()
+	}
+	return res, err
+}
+
+// VerifC18_AddDuringEvent: a handler is added while the informer dispatches an
+// event: the object enters the cache and is announced right after the add-time
+// replay took its snapshot. The new handler must still hear about it (replay
+// and registration are atomic with respect to event delivery), exactly once,
+// and so must the handler that was there before.
+func VerifC18_AddDuringEvent() {
+	verifC18Install()
+	var afterList func()
+	VerifNewLister = func(indexer cache.Indexer, gvr schema.GroupVersionResource) dynamiclister.Lister {
+		return &verifHookedLister{Lister: stub.NewLister(indexer, gvr), after: &afterList}
+	}
+	w := env.NewWorld()
+	f := NewSharedInformerFactory(w.Dyn, 0)
+	riA, errA := f.Resource("ex.com/v1", "things")
+	riB, errB := f.Resource("ex.com/v1", "things")
+	verifAssert(errA == nil && errB == nil && riA != nil && riB != nil, "add-during-event/subscribe-error")
+	if verifC18Failed {
+		return
+	}
+	stub.Settle(1)
+	stubs := stub.Stubs()
+	verifAssert(len(stubs) == 1 && stubs[0].HandlerCount() == 1, "add-during-event/setup")
+	if verifC18Failed {
+		return
+	}
+	st := stubs[0]
+	shared := st.Handler(0)
+	a := env.Thing("ns", "a", "uid-a")
+	b := env.Thing("ns", "b", "uid-b")
+	st.Indexer.Items = append(st.Indexer.Items, a)
+	withOld := rt.Bool("another-handler-is-registered-already")
+	hA, hB := verifNewGated(), verifNewGated()
+	if withOld {
+		riA.Informer().AddEventHandler(hA)
+	}
+	delivered := make(chan struct{})
+	afterList = func() {
+		// the reflector stores b and the informer announces it, concurrently
+		st.Indexer.Items = append(st.Indexer.Items, b)
+		go func() {
+			shared.OnAdd(b, false)
+			close(delivered)
+		}()
+		// give the dispatcher every chance to run before the replay goes on
+		time.Sleep(30 * time.Millisecond)
+	}
+	riB.Informer().AddEventHandler(hB)
+	<-delivered
+	uB, oB, _ := hB.snapshot()
+	// hB: replay of a (update) + b once, either live (add) or, had it been in the snapshot, as replay
+	verifAssert(uB+oB == 2, "add-during-event/new-handler-missed-or-duplicated-the-concurrent-event")
+	if withOld {
+		uA, oA, _ := hA.snapshot()
+		verifAssert(uA == 1 && oA == 1, "add-during-event/existing-handler-missed-the-event")
+	}
+	rt.Cover("add-during-event/done")
+	riA.Close()
+	riB.Close()
 }
